@@ -391,6 +391,12 @@ class EntrySpec(FnContract):
         self.engine = engine
         self.name = name
 
+    def on_iteration(self, ex, key, i, desc):
+        from . import builtin_specs
+        h = builtin_specs.ITERATION_SPECS.get(self.name)
+        if h is not None:
+            h(ex, ex.ctx, key, i, desc)
+
     def check(self, ex, ctx, outcome):
         from . import builtin_specs
         m = getattr(builtin_specs, 'spec_' + self.name.strip('_'), None)
